@@ -10,6 +10,9 @@
 #include <memory>
 #include <set>
 #include <sstream>
+#if __cplusplus >= 201703L
+#include <optional>
+#endif
 
 static en::Recorder R;
 
@@ -55,20 +58,20 @@ static std::string state_str(const State& s) {
   if (s.extra & std::ios::showbase) o << "/showbase"; if (s.extra & std::ios::uppercase) o << "/uppercase"; if (s.extra & std::ios::showpos) o << "/showpos"; if (s.extra & std::ios::boolalpha) o << "/boolalpha";
   return o.str();
 }
-static void apply(std::ostream& os, const State& s) { os.setf(s.base, std::ios::basefield); os.setf(s.adj, std::ios::adjustfield); os.setf(s.extra); os.fill(s.fill); os.width(s.width); }
+static void apply_state(std::ostream& os, const State& s) { os.setf(s.base, std::ios::basefield); os.setf(s.adj, std::ios::adjustfield); os.setf(s.extra); os.fill(s.fill); os.width(s.width); }
 static bool extra_kept(std::ostream& os, const State& s) { const auto m = std::ios::showbase | std::ios::uppercase | std::ios::showpos | std::ios::boolalpha; return (os.flags() & m) == s.extra; }
 static std::string squeeze(const std::string& s) { std::string o; bool sp = false; for (char c : s) { if (c == ' ' || c == '\n') sp = true; else { if (sp && !o.empty()) o += ' '; sp = false; o += c; } } return o; }
 
 // directly streamable / hex-dumped leaf: default formatting whatever the state, state restored, next insertion unaffected
 template <typename T> static void leaf(const std::string& what, const T& v, const std::string& exp, bool modulo_space = false) {
   for (auto& s : STATES) {
-    std::ostringstream os; apply(os, s);
+    std::ostringstream os; apply_state(os, s);
     trompeloeil::print(os, v);
     std::string got = os.str();
     R.check("print(" + what + ")", state_str(s), modulo_space ? squeeze(got) : got, modulo_space ? squeeze(exp) : exp, "leaf");
     bool restored = os.width() == s.width && os.fill() == s.fill && (os.flags() & std::ios::basefield) == s.base && (os.flags() & std::ios::adjustfield) == s.adj && extra_kept(os, s);
     R.check("stream state after print(" + what + ")", state_str(s), std::string(restored ? "restored" : "changed"), std::string("restored"), "restore");
-    std::ostringstream ref; apply(ref, s); ref << 200; os << 200;
+    std::ostringstream ref; apply_state(ref, s); ref << 200; os << 200;
     R.check("next insertion after print(" + what + ")", state_str(s), os.str().substr(got.size()), ref.str(), "restore");
   }
 }
@@ -80,7 +83,7 @@ template <typename T> static void structural(const std::string& what, const T& v
   for (auto& s : STATES) {
     if (s.width != 0) continue;
     if (user_printer && s.extra != std::ios_base::fmtflags{}) continue;
-    std::ostringstream os; apply(os, s);
+    std::ostringstream os; apply_state(os, s);
     trompeloeil::print(os, v);
     R.check("print(" + what + ")", state_str(s), os.str(), exp, "struct");
     bool restored = os.fill() == s.fill && (os.flags() & std::ios::basefield) == s.base && (os.flags() & std::ios::adjustfield) == s.adj && extra_kept(os, s);
@@ -126,6 +129,12 @@ int main(int argc, char** argv) {
     structural("cref(vector<int>)", std::cref(vi), "{ 1, 2 }"); leaf("ref(int 255)", std::ref(x), "255"); leaf("cref(const int 255)", std::cref(cx), "255");
     leaf("cref(opaque 2 bytes)", std::cref(o), "2-byte object={ 0x01 0x02 }", true);
     std::pair<int, std::string> mpr(5, "q"); structural("ref(pair<int,string>)", std::ref(mpr), "{ 5, q }"); }
+#if __cplusplus >= 201703L
+  // an optional holding a null pointer compares equal to nullptr: it prints as nullptr and the pointer is not dereferenced
+  { std::optional<int*> oi(nullptr); std::optional<const char*> oc(nullptr); std::optional<std::shared_ptr<int>> os_(std::shared_ptr<int>{});
+    structural("optional<int*> holding null", oi, "nullptr"); structural("optional<const char*> holding null", oc, "nullptr"); structural("optional<shared_ptr<int>> holding null", os_, "nullptr");
+    structural("pair<optional<int*>,int>", std::make_pair(oi, 3), "{ nullptr, 3 }"); structural("vector<optional<const char*>> holding nulls", std::vector<std::optional<const char*>>{oc, oc}, "{ nullptr, nullptr }"); }
+#endif
   // pairs, tuples, collections, nested, with nulls and custom printers at every depth
   structural("pair<int,string>", std::make_pair(10, std::string("x")), "{ 10, x }");
   structural("pair<int*,const char*> nulls", std::pair<int*, const char*>(nullptr, nullptr), "{ nullptr, nullptr }");
